@@ -237,6 +237,9 @@ func Summarize(r *core.Run, res []*DriverResult, classFilter func(class string) 
 				}
 			}
 		}
+		if len(s.Samples) == 0 && len(dr.Stats) > 0 {
+			s.Samples = append(s.Samples, map[string]any{"case": c.ID, "counts": dr.Stats})
+		}
 		for _, v := range dr.Viols {
 			if classFilter != nil && !classFilter(v.Class) {
 				continue
